@@ -1,5 +1,63 @@
-import SmppVerif.Model.PduDecode
+/-
+C03 — PDU encode/decode round trip for every message type and field value.
+PARTIAL: command_length is proved for all fifteen classes and every field assignment; the
+header and the round trip are proved for the body-less classes and for submit_sm_resp /
+deliver_sm_resp; for submit_sm / deliver_sm / bind / bind_resp the round trip is so far tied
+by the correspondence + round-trip predicate only (the model of their encoders and decoders
+is the one the driver runs).
+-/
+import SmppVerif.Lemmas.Pdu
+
 namespace SmppVerif.Props.C03
-theorem placeholder : True := trivial
+open SmppVerif SmppVerif.Pdu SmppVerif.Lemmas.Pdu
+
+/-- The command_length in the produced header always equals the number of bytes produced —
+    all 15 classes, every field value for which `pdu()` returns at all. -/
+theorem command_length (dflt : Enc) (m : Msg) (b : List Nat) (e : Option Enc)
+    (h : pdu dflt m = .ok (b, e)) : beVal (b.take 4) = b.length :=
+  pdu_len dflt m b e h
+
+/-- `struct.pack` and `unpack_from` are inverse on the representable range, at any offset. -/
+theorem pack_unpack (w : Nat) (v : Int) (l pre post : List Nat) (h : packU w v = .ok l) :
+    unpackU w (pre ++ l ++ post) pre.length = .ok v.toNat ∧ l.length = w ∧ 0 ≤ v ∧ v < (256 : Int) ^ w :=
+  ⟨unpackU_pack w v l pre post h, packU_length w v l h, (packU_ok w v l h).1, (packU_ok w v l h).2.1⟩
+
+/-- The header `pack_header` writes parses back to (length, command, status, sequence number). -/
+theorem header_round_trip (len : Nat) (m : Msg) (hd body : List Nat) (h : packHeader len m = .ok hd)
+    (hst : enumHas Gen.Enums.smppCommandStatus m.status = true) :
+    parseHeader ((hd ++ body).take 16) = .ok ⟨len, m.command, m.status, m.seq.toNat⟩ :=
+  parseHeader_of_packHeader len m hd body h hst
+
+/-- Round trip, body-less classes (enquire_link, enquire_link_resp, unbind, unbind_resp,
+    generic_nack) for every sequence number and every status member. -/
+theorem bodyless_round_trip (dflt : Enc) (m : Msg) (b : List Nat) (e : Option Enc)
+    (hm : (∃ s st, m = .enquireLink s st) ∨ (∃ s st, m = .enquireLinkResp s st) ∨
+          (∃ s st, m = .unbind s st) ∨ (∃ s st, m = .unbindResp s st) ∨
+          (∃ s st l x, m = .genericNack s st l x))
+    (h : pdu dflt m = .ok (b, e)) (hst : enumHas Gen.Enums.smppCommandStatus m.status = true) :
+    decode b dflt = .ok (untracked m) :=
+  Lemmas.Pdu.bodyless_round_trip dflt m b e hm h hst
+
+/-- Round trip, submit_sm_resp / deliver_sm_resp: any ASCII message id up to 64 characters. -/
+theorem smResp_round_trip (dflt : Enc) (r : SmResp) (deliver : Bool) (b : List Nat) (e : Option Enc)
+    (h : pdu dflt (if deliver then .deliverSmResp r else .submitSmResp r) = .ok (b, e))
+    (hst : enumHas Gen.Enums.smppCommandStatus r.status = true) (hlen : r.messageId.length ≤ 64) :
+    decode b dflt = .ok (untracked (if deliver then .deliverSmResp r else .submitSmResp r)) :=
+  Lemmas.Pdu.smResp_round_trip dflt r deliver b e h hst hlen
+
+/-- Non-vacuity: a submit_sm_resp with a 3-character id, and a short GSM submit_sm whose PDU
+    decodes to itself (kernel evaluation of the SubmitSm encoder and decoder of the model). -/
+example : pdu encGsm (.submitSmResp { seq := 7, status := 0, messageId := [97, 98, 99] })
+    = .ok ([0, 0, 0, 20, 128, 0, 0, 4, 0, 0, 0, 0, 0, 0, 0, 7, 97, 98, 99, 0], none) := by decide +kernel
+example :
+    let m : Sm := { seq := 9, shortMessage := [72, 0xFC, 0x20AC], source := ⟨[49], 1, 1⟩, dest := ⟨[50], 1, 1⟩,
+                    optionalParams := [⟨0x0204, .int 513⟩] }
+    (pdu encGsm (.submitSm m)).bind (fun p => decode p.1 encGsm) = .ok (.submitSm m) := by decide +kernel
+
 end SmppVerif.Props.C03
-#print axioms SmppVerif.Props.C03.placeholder
+
+#print axioms SmppVerif.Props.C03.command_length
+#print axioms SmppVerif.Props.C03.pack_unpack
+#print axioms SmppVerif.Props.C03.header_round_trip
+#print axioms SmppVerif.Props.C03.bodyless_round_trip
+#print axioms SmppVerif.Props.C03.smResp_round_trip
